@@ -7,7 +7,8 @@ open Rv
 /-!
 Line-protocol driver for C02.
   reset ring <k> <base>   start a sequential episode on a ring of 2^k slots whose counters are `base`
-  reset flow <k>          … on a flow buffer of 2^k tokens
+                          → ok cv=2 n=<2^k> (two condition variables per slot sharing one mutex)
+  reset flow <k>          … on a flow buffer of 2^k tokens → ok n=<2^k>
   put | putm              PutOne / PutMulti by a new caller   → ch:<i> | block
   next                    NextWriteCmd                        → cmd:<c> | nil | block
   wait                    WaitForWrite                        → cmd:<c> | block
@@ -154,10 +155,10 @@ def obsStep (o : Spec.Fifo.Obs) : List String → Spec.Fifo.Obs × String
 def step (st : St) (ws : List String) : St × String :=
   match ws with
   | ["reset", "ring", k, base] => match k.toNat?, base.toNat? with
-    | some k, some b => (.ring k (ringAt k b), "ok")
+    | some k, some b => (.ring k (ringAt k b), s!"ok cv=2 n={2 ^ k}")
     | _, _ => (st, "bad-op")
   | ["reset", "flow", k] => match k.toNat? with
-    | some k => (.flow (Flow.init (2 ^ k)), "ok")
+    | some k => (.flow (Flow.init (2 ^ k)), s!"ok n={2 ^ k}")
     | _ => (st, "bad-op")
   | "reset" :: "conc" :: _ => (.obs Spec.Fifo.Obs.empty, "ok")
   | _ => match st with
